@@ -221,6 +221,8 @@ def run_conc(pid, tier, seed, plan):
             for j in range(len(sexes)):
                 if stress[j].get("lacks") and any(op in stress[j]["lacks"] for th in sc["scenario"].split("|") for op in th.split(",")):
                     continue      # this runner's class does not have one of the scenario's operations
+                if sc.get("only_runners") and stress[j]["name"] not in sc["only_runners"]:
+                    continue
                 if bool(stress[j].get("own_scenarios")) != bool(sc.get("own")):
                     continue      # runners with their own scenario syntax (lock_stress) take only the scenarios written for them
                 if (i + j) % max(1, sc.get("every", 1)) == 0:
